@@ -2,6 +2,7 @@
 generation, execution of the real producer, TLC trace validation, triage."""
 from __future__ import annotations
 
+import os
 import json
 import logging
 import multiprocessing as mp
@@ -26,6 +27,7 @@ CONSTANTS
   HiMod = 2
   LoMod = 2
   Retain = 2
+  NoLeader = noleader
   MaxPerTask = {per}
   MaxTotal = {total}
   Cap = 2
@@ -50,7 +52,7 @@ def mc_cfg(name, *, total, faults, idem, acks0=False, lat=False, per=2, ts="{1, 
     txt = MC_BASE.format(spec="LiveSpec" if live else "Spec", per=per, total=total, faults=faults,
                          idem="TRUE" if idem else "FALSE", acks0="TRUE" if acks0 else "FALSE", ts=ts,
                          lat="TRUE" if lat else "FALSE", invs=invs, extra=extra)
-    path = tlc.SPEC / f"_gen_{name}.cfg"
+    path = tlc.SPEC / f"_gen_{name}_{os.getpid()}.cfg"
     path.write_text(txt)
     return path.name
 
@@ -99,7 +101,7 @@ def run_mc(rep: Report, ctx, which: str):
         if not kw.get("live") and not kw.get("acks0"):
             na = need
         rep.add_mc(f"MC_ProducerCore/{name}", r, need_actions=na)
-    for p in tlc.SPEC.glob("_gen_*.cfg"):
+    for p in tlc.SPEC.glob(f"_gen_*_{os.getpid()}.cfg"):
         p.unlink()
 
 
@@ -157,6 +159,17 @@ def gen_scenario(rng: random.Random, seed: int, cls: str) -> dict:
         sc["faults"] = dict(budget=rng.choice([10, 14, 20]), p=rng.choice([0.8, 1.0]), slow=0,
                             kinds=rng.choice([["error"], ["error", "drop_before"]]))
         sc["quiet"] = 6.0
+    if cls.endswith("noleader"):
+        # a partition has no leader when its records are accepted; the leader appears later and NOTHING else
+        # happens afterwards (no new batch, no other partition's traffic) -- the records must still get out
+        p = rng.randrange(nparts)
+        sc["noleader"] = [[p, rng.choice([0.08, 0.2, 0.5, 1.1])]]
+        sc["tasks"] = [[[p, None, rng.choice([8, 60])] for _ in range(rng.randrange(1, 4))]]
+        if rng.random() < 0.4 and nparts > 1:
+            sc["tasks"].append([[(p + 1) % nparts, None, 20]])
+        sc["task_gap"] = [0] * len(sc["tasks"])
+        sc["faults"] = dict(budget=0, p=0, slow=rng.choice([0, 0.005]), kinds=["error"])
+        sc["env"] = []
     if cls == "acks0":
         sc["idem"], sc["acks"] = False, 0
     if cls == "versions":
